@@ -52,6 +52,18 @@ def _sql_side(env, obj, is_pred, ast=None):
         # the SQL side sees literals exactly as a caller supplies them (plain ints; only $k/$m stay symbolic):
         # the symbolic wrapper around constants exists for the iteration engine's set lookups only (DESIGN 2.2)
         obj = exprsem.lib_of_ast(ast, env.tags, lambda v: env.bind[v] if isinstance(v, str) else v)
+    # earlier life of the same engine: an equal expression (another object) and the object itself were converted against
+    # another table that exposes the same tags; nothing of that may show up in the conversion against T
+    old = sa.Table("old_T", sa.MetaData(), *[sa.Column(c, sa.Integer) for c in COLS])
+    ca_old = {env.tags[c]: old.c[c] for c in COLS}
+    try:
+        twin = exprsem.lib_of_ast(ast, env.tags, lambda v: env.bind[v] if isinstance(v, str) else v) if ast is not None else obj
+        for o in (twin, obj):
+            _ = sq.convert_predicate(o, ca_old) if is_pred else sq.convert_column_expression(o, ca_old)
+            if is_pred:
+                sq.convert_flattened_predicate(o, ca_old)
+    except Exception:  # noqa: BLE001 - the earlier conversion is not the subject
+        pass
     el = sq.convert_predicate(obj, ca) if is_pred else sq.convert_column_expression(obj, ca)
     return tbl, el
 
